@@ -6,15 +6,17 @@ import (
 	"zvh/engines/codec"
 	"zvh/engines/query"
 	"zvh/engines/coalesce"
+	"zvh/engines/crash"
 	"zvh/engines/seq"
 	"zvh/engines/store"
 )
 
 func init() {
-	for _, n := range []string{"auth", "codec", "sortlim"} {
+	for _, n := range []string{"auth", "codec", "sortlim", "coalesce", "crash"} {
 		ownsReplay[n] = true
 	}
 	engines["seq"] = seq.Engine{}
+	engines["crash"] = crash.Engine{}
 	engines["coalesce"] = coalesce.Engine{}
 	engines["query"] = query.Engine{}
 	engines["codec"] = codec.Engine{}
